@@ -205,6 +205,25 @@ CHECKS["C08"] = dict(
     technique="typestate abstract interpretation with inlining and parameter binding + ownership dataflow + context-sensitive call-graph reachability",
     design="3/C08")
 
+
+CHECKS["C09"] = dict(
+    text="Decides, with OpenSSL trusted to enforce what its flags say, that XCM always says it: (R1) on every path of btls connect/accept that enters the "
+         "handshaking state an SSL object was created and set_verify was called with the socket's own tls_client/tls_auth/check_crl/check_time fields in the "
+         "callee's parameter order, and with tls.verify_peer_name on hostname validation was enabled successfully; no other function starts a handshake or "
+         "creates an SSL object; (R2) set_verify itself is folded exactly (its AST evaluated with recording stubs) over all 16 policy combinations and the "
+         "mode/flags handed to OpenSSL must equal the documented table (PEER, FAIL_IF_NO_PEER_CERT on the server role, CRL_CHECK|CRL_CHECK_ALL, "
+         "NO_CHECK_TIME only with check_time off); (R3) `ready` is stored only on the success edge of the handshake and under tls.auth every path then "
+         "passes verify_peer_cert, every path of which either saw (certificate, X509_V_OK) or stores bad/EPROTO; (R4) SSL_read/SSL_write are reached only "
+         "with the state known ready after the last possible state change, and only in the data ops; (R5) every policy field of the socket record (derived "
+         "from what the policy functions read) is copied by the inheritance function, which init calls; (R6) no success path of finalize_tls_conf / "
+         "enable_hostname_validation is consistent with one of the six documented invalid combinations, refusals say EINVAL, and finalize precedes the "
+         "context lookup in connect, server and accept; (R7) load_ssl_ctx installs trusted CAs/CRLs iff given and allows partial chains only without CRLs; "
+         "hostname flags NO_WILDCARDS|ALWAYS_CHECK_SUBJECT. Not decided: the outcome matrix against generated certificates (that is the behaviour), "
+         "OpenSSL's chain building, extended key usage checks (inside OpenSSL).",
+    note=TRUSTED + " Numeric values of the OpenSSL flag macros are taken from its stable ABI.",
+    technique="path exploration + exact folding of the policy function over all inputs + control dependence / must-pass + field coverage + path-fact analysis",
+    design="3/C09")
+
 NOT_APPLICABLE = {}
 
 
